@@ -83,8 +83,8 @@ PretendListWellFormed(text) ==
     IN \A i \in 1..Len(items) : CountOf(items[i], 58) = 1 /\ items[i][1] # 58 /\ items[i][Len(items[i])] # 58
 
 \* C15: whatever the input, a tool run ends by itself with a result or a diagnostic: an exit status, no terminating signal,
-\* no sanitizer report (out-of-bounds / use-after-free / uninitialised / mismatched deallocation / undefined behaviour), no hang
-RobustOutcome(run) == run.sig = 0 /\ ~run.san /\ ~run.timeout /\ run.code >= 0 /\ run.code <= 255 /\ run.code \notin {66, 67, 134, 136, 139}
+\* no sanitizer or valgrind report (out-of-bounds / use-after-free / uninitialised / mismatched deallocation), no hang
+RobustOutcome(run) == run.sig = 0 /\ ~run.san /\ ~run.timeout /\ run.code >= 0 /\ run.code <= 255 /\ run.code \notin {66, 67, 68, 134, 136, 139}
 
 \* substring test on code sequences
 Contains(hay, needle) == \E i \in 0..(Len(hay) - Len(needle)) : SubSeq(hay, i + 1, i + Len(needle)) = needle
